@@ -69,6 +69,16 @@ def corpus():
     return [dict(kind='H', cfg=inh, twin_only=True,
                  prog=[['add', 0, 1, {'a': 1}], ['commit'], ['del', 0, 1], ['flush'],
                        ['add', 2, 1, {'a': 2, 'tracks': 3}], ['commit'], ['set', 2, 1, {'tracks': 4}], ['commit']]),
+            # base class -> joined-table child, and joined child -> single-table sibling, within one transaction
+            dict(kind='H', cfg=inh, twin_only=True,
+                 prog=[['add', 0, 1, {'a': 1}], ['commit'], ['del', 0, 1], ['flush'],
+                       ['add', 1, 1, {'a': 2, 'pages': 3}], ['commit'], ['set', 1, 1, {'pages': 4}], ['commit']]),
+            dict(kind='H', cfg=dict(inh, strategy='subquery'), twin_only=True,
+                 prog=[['add', 0, 1, {'a': 1}], ['commit'], ['del', 0, 1], ['flush'],
+                       ['add', 1, 1, {'a': 2, 'pages': 3}], ['commit'], ['set', 1, 1, {'pages': 4}], ['commit']]),
+            dict(kind='H', cfg=inh, twin_only=True,
+                 prog=[['add', 2, 1, {'a': 1, 'tracks': 2}], ['commit'], ['del', 2, 1], ['flush'],
+                       ['add', 1, 1, {'a': 2, 'pages': 3}], ['commit']]),
             dict(kind='H', cfg=inh, twin_only=True,
                  prog=[['add', 1, 3, {'a': 1, 'pages': 2}], ['commit'], ['del', 1, 3], ['flush'],
                        ['add', 0, 3, {'a': 2}], ['commit'], ['set', 0, 3, {'a': 4}], ['commit']]),
